@@ -67,6 +67,9 @@ func (s *Sink) Scenario(sc *Scenario) *RunResult {
 		s.Violate(res.Op, res.Out, v)
 	}
 	s.Extra["retained_slices_rechecked"] += res.RetainedChecked
+	if res.Stalled > 0 {
+		s.Extra["calls_stalled_expectation_skipped"] += res.Stalled
+	}
 	return res
 }
 
@@ -101,12 +104,16 @@ func runProtoSuite(suite string, rng *Rng, thorough bool, s *Sink) {
 		}
 		genC03(rng, thorough, emit)
 		twoInstances(rng, s)
+		oneObjectSweep(rng, s)
+		genManyAddresses(rng, emit)
+		genLongIdle(rng, emit)
 	case "c03x":
 		genC03x(rng, thorough, emit)
 	case "c04":
 		genC04(rng, thorough, emit)
 	case "c05":
 		genC05(rng, thorough, emit)
+		errSurvey(s, rng)
 	case "c06":
 		genC06(rng, thorough, emit)
 	case "c18":
@@ -180,6 +187,7 @@ func runProtoSuite(suite string, rng *Rng, thorough bool, s *Sink) {
 				s.Violate(fmt.Sprintf("FL %s - mut:two-loggers-on-one-file", HEX(prev)), got, fmt.Sprintf("two file loggers on one path (err=%v): the file holds %s, appending in order gives %s", err, got, want))
 			}
 		}
+		loggerAcrossConnections(s, rng)
 		// the file logger on real files
 		n := 40
 		if thorough {
@@ -305,6 +313,11 @@ func txPayloadOracle(cmd byte, addr uint16, w []byte) string {
 func main() {
 	if len(os.Args) == 3 && os.Args[1] == "coldstart" {
 		coldstartMain(os.Args[2])
+		return
+	}
+	if len(os.Args) == 4 && os.Args[1] == "coldstartc" {
+		n, _ := strconv.Atoi(os.Args[3])
+		coldstartConcurrentMain(os.Args[2], n)
 		return
 	}
 	if len(os.Args) < 5 {
